@@ -61,6 +61,17 @@ def check(case):
         psi = R.psi_ref(am, ph, V)
         rho = psi[:, None] * psi.conj()[None, :]
     rho = rho / rho.diagonal().real.sum()
+    # precision tier (see c01.py): product-form reference following the library's documented arithmetic; the estimators of a mixed state
+    # divide by probability(sigma), whose normalisation sums the auxiliary units in product form as well
+    with R.library_precision():
+        if sc["type"] == "density":
+            rho_prec = R.rho_ref(am, ph, V)
+            den_prec = torch.exp(R.log_prob_visible(am, V))            # what probability() reports: the weight of the diagonal terms
+            rho_prec = (rho_prec - torch.diag(rho_prec.diagonal()) + torch.diag(den_prec.to(R.C128))) / den_prec.sum()
+        else:
+            psi_p = R.psi_ref(am, ph, V)
+            rho_prec = psi_p[:, None] * psi_p.conj()[None, :]
+            rho_prec = rho_prec / rho_prec.diagonal().real.sum()
     ops = dense_ops(n)
     obs = [("X", lambda a: SigmaX(absolute=a)), ("Y", lambda a: SigmaY(absolute=a)), ("Z", lambda a: SigmaZ(absolute=a))]
     ey = None
@@ -79,6 +90,8 @@ def check(case):
         ref = torch.trace(rho @ ops[key])
         require(abs(est - float(ref.real)) <= 1e-7, f"biased:Sigma{key}",
                 f"exact average of Sigma{key} per-sample values = {est:.10f}, but tr(rho {key}) = {float(ref.real):.10f}", imag=float(ref.imag))
+        ref_p = float(torch.trace(rho_prec @ ops[key]).real)
+        require(abs(est - ref_p) <= 1e-11, f"precision:Sigma{key}", f"exact average of Sigma{key} per-sample values is not accurate to double precision: {est!r} vs tr(rho {key}) = {ref_p!r}")
         if key == "Y":
             ey = float(ref.real)
         av = mk(True).apply(state, space.clone())
@@ -90,6 +103,13 @@ def check(case):
                 f"the third application of the same Sigma{key} object differs from its first")
         require(tuple(sub.shape) == (len(idx),) and bool(torch.all((sub.double() - vals.double()[idx]).abs() <= 1e-9 * (1 + vals.double()[idx].abs()))),
                 f"pointwise:{key}", f"Sigma{key}.apply on a sub-batch differs from the rows of the full evaluation")
+        # the caller's sample buffer filled in place with other configurations between two calls (e.g. chains advanced in place)
+        buf = space.clone()
+        shared.apply(state, buf)
+        buf.copy_(space.flip(0))
+        vb = shared.apply(state, buf).double()
+        require(bool(torch.all((vb - vals.double().flip(0)).abs() <= 1e-12 * (1 + vals.double().abs().flip(0)))), f"buffer-refilled-in-place:{key}",
+                f"Sigma{key}.apply on a sample tensor that was refilled in place does not follow the tensor's current contents")
         # signed -> absolute -> signed on the SAME batch, back to back (no other batch in between), by two objects of the same class
         av2 = mk(True).apply(state, space.clone())
         fourth = shared.apply(state, space.clone())
@@ -109,6 +129,8 @@ def check(case):
             require(tuple(vals.shape) == (2 ** n,), "shape:NI", f"NeighbourInteraction.apply returned shape {tuple(vals.shape)}")
             est = float((p * vals.double()).sum())
             ref = float(torch.trace(rho @ ops[("NI", c, pbc)]).real)
+            ref_p = float(torch.trace(rho_prec @ ops[("NI", c, pbc)]).real)
+            require(abs(est - ref_p) <= 1e-11, "precision:NeighbourInteraction", f"NeighbourInteraction(c={c}, periodic={pbc}) average is not accurate to double precision: {est!r} vs {ref_p!r}")
             require(abs(est - ref) <= 1e-7, f"biased:NeighbourInteraction(pbc={pbc})",
                     f"NeighbourInteraction(c={c}, periodic={pbc}) averages to {est:.10f}, operator expectation is {ref:.10f} (n={n})")
     nt = gen.all_biases_nonzero(sc) and (sc["type"] == "positive" or abs(ey) > 1e-6)
